@@ -7,6 +7,9 @@ from core import cq, fr, fl, Raw, N, Some, dy
 
 ID = 'C09'
 GEN = ['kernels', 'thermal', 'utils']
+# the scalar kernels of functions.py this property's statement depends on (a change confined to the others is not this property's business;
+# what its own correspondence compares still is)
+KERNELS_USED = []
 PROPS = 'Props/C09.v'
 MODEL_VO = ['Model/Dev.v']
 CASE_TYPE = 'c09case'
